@@ -59,11 +59,14 @@ Proof.
     reflexivity.
 Qed.
 
-Lemma tr_inctx_ok e s k st r : tr_inctx e s k st = Ok r -> inctx_ok s = true.
+Lemma tr_inctx_ok e s k st r : tr_inctx e s k st = Ok r ->
+  inctx_ok (map fst (e_labels e)) (is_some (e_break e)) (is_some (e_cont e)) (is_some (e_brkloop e)) s = true.
 Proof.
-  destruct s; try discriminate; cbn [tr_inctx inctx_ok].
+  destruct s; try discriminate; cbn [tr_inctx inctx_ok]; intro H.
   - destruct c; [discriminate | reflexivity].
-  - destruct k0; try discriminate; reflexivity.
+  - apply need_ok in H. apply assoc_mem in H. exact H.
+  - binds. match goal with H : need _ _ _ = Ok _ |- _ => apply need_ok in H; apply assoc_mem in H; exact H end.
+  - destruct k0; try reflexivity; apply need_ok in H; rewrite H; reflexivity.
   - reflexivity.
 Qed.
 
